@@ -833,8 +833,8 @@ def c10_run(item: dict) -> dict:
 # ---- drivers ---------------------------------------------------------------------------------------
 
 TIERS = {
-    "C05": {"quick": {"runs": 500, "wall_cap": 75.0}, "thorough": {"runs": 12000, "wall_cap": 1500.0}},
-    "C08": {"quick": {"runs": 900, "wall_cap": 75.0}, "thorough": {"runs": 25000, "wall_cap": 1500.0}},
+    "C05": {"quick": {"runs": 1200, "wall_cap": 75.0}, "thorough": {"runs": 12000, "wall_cap": 1500.0}},
+    "C08": {"quick": {"runs": 2400, "wall_cap": 75.0}, "thorough": {"runs": 25000, "wall_cap": 1500.0}},
     "C10": {"quick": {"runs": 1, "wall_cap": 75.0}, "thorough": {"runs": 3, "wall_cap": 1500.0}},
 }
 
